@@ -122,7 +122,9 @@ def oracleC03seq (o : OSt) (op : OpKind) (_log : List String) (cur : World) : St
                 (match p.maxT with | some m => decide (m > (p.st.trials : Int)) | none => p.st.trials != 0)
             | none => false
           if isRaise then none
-          else if (verdictOf e).isNone && restartOk then none
+          -- a legal restart may withdraw the verdict, or replace it within the same status write (e.g. the goal rule fires
+          -- at once for an early-stopped trial whose observation arrived after the max-trials verdict)
+          else if restartOk then none
           else some s!"fail verdict-reason-or-completion-time-changed {e.key.name} was={v.kind}/{v.reason}")
   bad.headD "pass"
 
